@@ -70,6 +70,18 @@ def _getcwd():
 
 
 os.getcwd = _getcwd
+_real_truncate = os.truncate
+
+
+def _truncate(path, length):
+    # the length may be a symbolic integer: record the access before the C function converts its arguments
+    if _MON["on"] and _is_virtual(path):
+        _MON["hits"].append(("os.truncate", os.fspath(path)))
+        raise FileNotFoundError(2, "No such file or directory (virtual path)", os.fspath(path))
+    return _real_truncate(path, length)
+
+
+os.truncate = _truncate
 
 
 class Monitor:
